@@ -82,6 +82,30 @@ func exprs(s ast.Stmt) []ast.Node {
 	return nil
 }
 
+// hasCtxPoll: the statement itself calls ctx.Err()
+func hasCtxPoll(nodes []ast.Node) bool {
+	found := false
+	for _, n := range nodes {
+		ast.Inspect(n, func(x ast.Node) bool {
+			if found {
+				return false
+			}
+			if _, ok := x.(*ast.FuncLit); ok {
+				return false
+			}
+			if c, ok := x.(*ast.CallExpr); ok {
+				if f, ok := c.Fun.(*ast.SelectorExpr); ok && f.Sel.Name == "Err" {
+					if id, ok := f.X.(*ast.Ident); ok && id.Name == "ctx" {
+						found = true
+					}
+				}
+			}
+			return !found
+		})
+	}
+	return found
+}
+
 func hasFSCall(nodes []ast.Node, filePkg string) bool {
 	found := false
 	for _, n := range nodes {
@@ -206,7 +230,14 @@ func main() {
 	goOnly := flag.String("goonly", "", "comma-separated files that only get a scheduling point at the top of every `go func() {...}()` literal")
 	simPool := flag.String("simpool", "", "comma-separated files in which every sync.Pool becomes a vhook.SPool (served by the simulated allocator); they are processed in addition to the other lists")
 	vhookDir := flag.String("vhookdir", "", "directory of package vhook of the tree under test (gets spool_verif.go through the overlay when -simpool is used)")
+	ctxPoll := flag.String("ctxpoll", "", "comma-separated files in which every statement that polls the context (ctx.Err()) gets a scheduling point in front of it: a cancellation can only be noticed at a poll, so every poll is a point at which one can arrive")
 	flag.Parse()
+	ctxPollSet := map[string]bool{}
+	for _, g := range strings.Split(*ctxPoll, ",") {
+		if g != "" {
+			ctxPollSet[g] = true
+		}
+	}
 	simPoolSet := map[string]bool{}
 	for _, g := range strings.Split(*simPool, ",") {
 		if g != "" {
@@ -225,7 +256,14 @@ func main() {
 			files = append(files, g)
 		}
 	}
+	extra := map[string]bool{}
+	for g := range ctxPollSet {
+		extra[g] = true
+	}
 	for g := range simPoolSet {
+		extra[g] = true
+	}
+	for g := range extra {
 		known := false
 		for _, f := range files {
 			if f == g {
@@ -241,6 +279,7 @@ func main() {
 	overlay := map[string]string{}
 	total := 0
 	pools := 0
+	ctxPoints := 0
 	for i, path := range files {
 		src, err := os.ReadFile(path)
 		if err != nil {
@@ -289,6 +328,26 @@ func main() {
 			})
 		}
 		base := filepath.Base(path)
+		visitCtx := func(stmts []ast.Stmt) {
+			for j, s := range stmts {
+				if isVhookCall(s) && exprsOnly(s) {
+					continue
+				}
+				if j > 0 && isVhookCall(stmts[j-1]) && exprsOnlyShallow(stmts[j-1]) {
+					continue
+				}
+				if _, isReturn := s.(*ast.ReturnStmt); isReturn {
+					continue
+				}
+				ex := exprs(s)
+				if ex == nil || !hasCtxPoll(ex) {
+					continue
+				}
+				pos := fset.Position(s.Pos())
+				list = append(list, ins{off: pos.Offset, text: fmt.Sprintf("vhook.Yield(\"auto:ctx:%s:%d\", 0); ", base, pos.Line)})
+				ctxPoints++
+			}
+		}
 		visit := func(stmts []ast.Stmt) {
 			for j, s := range stmts {
 				if isVhookCall(s) && exprsOnly(s) {
@@ -323,6 +382,16 @@ func main() {
 						pos := fset.Position(fl.Body.Lbrace)
 						list = append(list, ins{off: pos.Offset + 1, text: fmt.Sprintf(" vhook.Yield(\"auto:go:%s:%d.start\", 0); ", base, pos.Line)})
 					}
+				}
+			}
+			if ctxPollSet[path] {
+				switch t := n.(type) {
+				case *ast.BlockStmt:
+					visitCtx(t.List)
+				case *ast.CaseClause:
+					visitCtx(t.Body)
+				case *ast.CommClause:
+					visitCtx(t.Body)
 				}
 			}
 			if goOnlySet[path] {
@@ -375,7 +444,7 @@ func main() {
 	}
 	js, _ := json.MarshalIndent(map[string]interface{}{"Replace": overlay}, "", " ")
 	fmt.Println(string(js))
-	fmt.Fprintf(os.Stderr, "autoyield: %d scheduling points inserted, %d sync.Pool made simulated, %d files\n", total-pools, pools, len(overlay))
+	fmt.Fprintf(os.Stderr, "autoyield: %d scheduling points inserted (%d of them at context polls), %d sync.Pool made simulated, %d files\n", total-pools, ctxPoints, pools, len(overlay))
 }
 
 // exprsOnly: the statement is nothing but a vhook call (or an if around one)
